@@ -12,13 +12,24 @@ from . import reader as rd
 
 
 class ScriptSock(socket.socket):
-    def __init__(self, segs, end, events):
-        super().__init__()
+    def __init__(self, segs, end, events, dgram=False, delay=0.0, timeout=None):
+        """dgram: a SOCK_DGRAM socket (UDP): each recv() returns one datagram = one segment (the drivers keep bufsize >= the largest
+        segment, as an application must, or the OS truncates).  delay / timeout: a socket with a positive timeout whose data arrive in
+        pieces, each well within the timeout (real time: delay seconds pass before every recv() returns)"""
+        if dgram:
+            super().__init__(socket.AF_INET, socket.SOCK_DGRAM)
+        else:
+            super().__init__()
         self._segs = [bytes(s) for s in segs if len(s) > 0]
         self._end = end
         self._events = events
+        self._delay = delay
+        if timeout is not None:
+            self.settimeout(timeout)
 
     def recv(self, bufsize, *a):  # noqa: D401
+        if self._delay:
+            time.sleep(self._delay)
         if not self._segs:
             self._events.append(["recv", 0])
             if self._end == "timeout":
@@ -181,7 +192,8 @@ def obs_reader(case):
                 except OSError:
                     pass
     else:
-        sock = (ScriptSockTLS if case.get("tls") else ScriptSock)(segments(S, case["cuts"]), case["end"], events)
+        sock = (ScriptSockTLS if case.get("tls") else ScriptSock)(segments(S, case["cuts"]), case["end"], events, dgram=bool(case.get("dgram")),
+                                                                  delay=case.get("delay", 0.0), timeout=case.get("timeout"))
         try:
             sitems, spd, send = _reader_items(sock, kw)
         finally:
